@@ -810,6 +810,14 @@ def contains(it, container, x):
                 rs.append(r)
         return z3.Or(*rs) if rs else False
     if isinstance(container, SetV):
+        if getattr(container, 'history', None) is not None:
+            # a set attribute that methods fill: after an arbitrary earlier use it may hold the element or not; a verdict reached
+            # through this test needs an invariant over the set that the contract does not state
+            if container.elem_sort is None:
+                _fix_emptyset(it, container, x)
+                if container.elem_sort is not None:
+                    container.arr = it.fresh('hist_set', container.arr.sort())
+            it.path.info.setdefault('needs_invariant', 'a set attribute filled by earlier calls was tested for membership')
         _fix_emptyset(it, container, x)
         return container.arr[elem_term(it, x, container.elem_sort)]
     if isinstance(container, SymSeq):
